@@ -100,3 +100,78 @@ def run(prog, prefix="mpq_", rule="R-EXTORDER"):
     res.counts["stores_through_int_out_parameters"] = stores
     res.floor("stores through int out-parameters examined", stores, 20)
     return res
+
+
+def run_extcopy(prog, prefix="mpq_", rule="R-EXTORDER"):
+    """a work vector in internal column order (a local array allocated with ncols entries) is copied into an array handed in by the
+    caller only element by element through structmap[] / rowmap[]: the caller's arrays are in external order (structurals, then the
+    logical of row i at nstruct + i), and internal order equals external order only for problems whose columns were all created
+    before their rows."""
+    from ..core import callee, const_of
+    res = RuleResult(rule + "(copy)", "elements of a work array in internal column order reach a caller's array only through a structmap[] / rowmap[] subscript")
+    n = 0
+    for f in sorted(prog.funcs.values(), key=lambda x: x.key):
+        if f.live is None or not any(u in f.unit for u in UNITS):
+            continue
+        byloc = {}
+        for b, i, e in f.elements():
+            if e[0] == "D":
+                for n2, init in e[1]:
+                    if init is not None and n2.startswith("__"):
+                        byloc.setdefault(e[2].rsplit(":", 1)[0], []).append(init)
+        internal = set()
+        for b, i, e in f.elements():
+            if e[0] == "A" and e[1][1] == "=" and is_var(e[1][2], kind="l"):
+                rhs = e[1][3]
+                if isinstance(rhs, list) and rhs and rhs[0] == "se":
+                    inits = byloc.get(e[2].rsplit(":", 1)[0], [])
+                    dims = set()
+                    for t in inits:
+                        for nd in walk(t):
+                            if nd[0] == "m" and nd[2].split("::")[1] in ("ncols", "nrows", "nstruct"):
+                                dims.add(nd[2].split("::")[1])
+                            elif is_var(nd, kind="l"):
+                                # a local copy of a dimension (ncols = qslp->ncols)
+                                for b2, i2, e2 in f.elements():
+                                    if e2[0] == "D":
+                                        for n3, init3 in e2[1]:
+                                            if n3 == strip(nd)[2] and init3 is not None:
+                                                r3 = strip(init3)
+                                                if isinstance(r3, list) and r3 and r3[0] == "m" and r3[2].split("::")[1] in ("ncols", "nrows", "nstruct"):
+                                                    dims.add(r3[2].split("::")[1])
+                                    elif e2[0] == "A" and e2[1][1] == "=" and is_var(e2[1][2], name=strip(nd)[2], kind="l"):
+                                        r3 = strip(e2[1][3])
+                                        if isinstance(r3, list) and r3 and r3[0] == "m" and r3[2].split("::")[1] in ("ncols", "nrows", "nstruct"):
+                                            dims.add(r3[2].split("::")[1])
+                    if dims == {"ncols"}:
+                        internal.add(strip(e[1][2])[2])
+        if not internal:
+            continue
+        for b, i, c in f.calls():
+            if callee(c) != "mpq_set" or len(c[3]) < 2:
+                continue
+            d, s = strip(c[3][0]), strip(c[3][1])
+            if not (isinstance(d, list) and d and d[0] == "i" and isinstance(s, list) and s and s[0] == "i"):
+                continue
+            if not (is_var(d[1]) and strip(d[1])[1].startswith("p") and is_var(s[1], kind="l") and strip(s[1])[2] in internal):
+                continue
+            n += 1
+            res.obligations += 1
+            res.nontrivial += 1
+            ix = strip(s[2])
+            ok = False
+            if isinstance(ix, list) and ix and ix[0] == "i":
+                fl = fields_of(apath(ix[1])[2])
+                ok = bool(fl) and fl[-1].split("::")[1] in ("structmap", "rowmap")
+                if not ok and is_var(ix[1], kind="l"):
+                    ok = strip(ix[1])[2] in ("structmap", "rowmap")
+            if ok:
+                res.sample({"site": "%s %s: %s" % (short_loc(c[4]), f.name, show(c)[:70]), "verdict": "through %s" % show(ix[1])}, limit=6)
+            else:
+                res.violations.append(Violation(rule, "%s|internal-order element copied to the caller without structmap/rowmap" % f.name.replace(prefix, ""), f.name, short_loc(c[4]),
+                                                "%s copies element %s of the internal-order work array %s into the caller's array: the caller's positions are external "
+                                                "(structural j, logical of row i at nstruct + i) and must be reached through structmap[] / rowmap[]" % (
+                                                    show(c)[:80], show(ix)[:30], strip(s[1])[2])))
+    res.counts["copies_from_internal_order_work_arrays"] = n
+    res.floor("copies from internal-order work arrays to caller arrays", n, 2)
+    return res
